@@ -249,6 +249,7 @@ class Contract:
         self.assumed = d.get('assumed', False)       # contract is not verified (external / out of reach)
         self.use_opaque = d.get('use_opaque', True)   # False: @opaque specification functions are interpreted transparently for this contract
         self.bounds = d.get('bounds', {})
+        self.native_skip = d.get('native_skip', False)   # no native evaluation (objects cannot be rebuilt natively)
         self.native_only = d.get('native_only', False)   # no VCs: only native contract evaluation (bounded stand-in)
         self.bounded = d.get('bounded')              # text: the contract only covers a stated bounded shape (stand-in, not a proof)
         self.doc = (spec_cls.__doc__ or '').strip()
